@@ -13,6 +13,7 @@
 //   barrier <id> <sleep_us>
 //   close | stop
 //   pw <n>  peer writes n pattern bytes      pr <n>  peer reads up to n bytes     pc  peer closes    pshut  peer shutdown(WR)
+//   closefd                            close the library's descriptor (later system calls fail with EBADF)
 //   sleep <us> | waitdrain | wait <op> | drain | end
 // output (per scenario, sorted by global sequence stamp):
 //   K ...constants...                  (once)
@@ -220,6 +221,8 @@ int main(int argc, char **argv) {
 				if (fd_peer >= 0) peer_read(1 << 20, 1); else usleep(200);
 			}
 		} else if (!strcmp(cmd, "pc")) { if (fd_peer >= 0) { close(fd_peer); fd_peer = -1; } logf_(next_seq(), "A pc 0");
+		} else if (!strcmp(cmd, "closefd")) { // the client closes the descriptor behind the channel's back (EBADF)
+			if (fd_lib >= 0) { close(fd_lib); fd_lib = -1; } logf_(next_seq(), "A closefd 0");
 		} else if (!strcmp(cmd, "pshut")) { if (fd_peer >= 0) shutdown(fd_peer, SHUT_WR); logf_(next_seq(), "A pshut 0");
 		} else if (!strcmp(cmd, "sleep")) { long us; sscanf(rest, "%ld", &us); usleep((useconds_t)us);
 		} else if (!strcmp(cmd, "waitdrain")) {
